@@ -93,6 +93,13 @@ DeriveSets(c) ==
     fan_speeds |-> If(FanHas(c, "silent"), {20}) \cup If(FanHas(c, "low"), {40}) \cup If(FanHas(c, "medium"), {60}) \cup If(FanHas(c, "high"), {80})
                    \cup If(FanHas(c, "auto"), {102}) \cup If(Has(c, "fan_custom"), {100}),
     aux_modes |-> {0} \cup If(Has(c, "aux_electric_heat") \/ Has(c, "aux_heat_mode"), {1}) \cup If(Has(c, "aux_mode"), {2}) ]       \* each announcement counts on its own
+(* setpoint limits in half degrees: the smallest minimum / largest maximum over the three modes, 16 / 30 degrees for a mode the unit says nothing about *)
+Lim(c, k, dflt) == IF k \in DOMAIN c THEN c[k] ELSE dflt
+Min3(a, b, d) == IF a <= b /\ a <= d THEN a ELSE IF b <= d THEN b ELSE d
+Max3(a, b, d) == IF a >= b /\ a >= d THEN a ELSE IF b >= d THEN b ELSE d
+DeriveTemps(c) == [ min_t2 |-> Min3(Lim(c, "cool_min_temperature", 32), Lim(c, "auto_min_temperature", 32), Lim(c, "heat_min_temperature", 32)),
+                    max_t2 |-> Max3(Lim(c, "cool_max_temperature", 60), Lim(c, "auto_max_temperature", 60), Lim(c, "heat_max_temperature", 60)) ]
+TempsOf(a) == [min_t2 |-> a.min_t2, max_t2 |-> a.max_t2]
 SeqSet(q) == {q[j] : j \in 1..Len(q)}
 SetsOf(a) == [ op_modes |-> SeqSet(a.op_modes), swing_modes |-> SeqSet(a.swing_modes), fan_speeds |-> SeqSet(a.fan_speeds), aux_modes |-> SeqSet(a.aux_modes) ]
 RECURSIVE InterpAll(_)
